@@ -517,6 +517,10 @@ class PteraTransformer(NodeTransformer):
         new_body = []
 
         for external in sorted(self.external):
+            if not self.should_instrument(external):
+                # Not of interest: keep reading it as a global when (and if)
+                # it is used, like the original function does
+                continue
             new_body.extend(
                 self.make_interaction(
                     target=ast.Name(id=external, ctx=ast.Store()),
